@@ -95,6 +95,17 @@ Theorem C11_iter_monotone : forall rx ry r, WF r ->
   allpairs (rect_before rx ry) (rgn_iter rx ry r).
 Proof. exact iter_monotone. Qed.
 
+(* sraRgnPopRect as the library uses it (flags 0): rectangle + rest, nothing lost, nothing added *)
+Theorem C11_poprect_sem : forall r, WF r ->
+  match rgn_pop_rect r false false with
+  | None => r = []
+  | Some (rc, r') =>
+      WF r' /\
+      (let '(x1, y1, x2, y2) := rc in x1 < x2 /\ y1 < y2) /\
+      forall x y, rgn_mem r x y = rect_mem rc x y || rgn_mem r' x y
+  end.
+Proof. exact pop_rect_sem. Qed.
+
 Theorem C11_bbox_encloses : forall r x y, WF r ->
   WF (rgn_bbox r) /\ (rgn_mem r x y = true -> rgn_mem (rgn_bbox r) x y = true).
 Proof. exact (fun r x y W => conj (bbox_wf r W) (bbox_sup r x y W)). Qed.
